@@ -110,7 +110,7 @@ class ElementTraits<std::index_sequence<I...>, Parameter...>
 
     static constexpr auto TRAILING_ALIGNMENTS = calculate_trailing_alignments();
 
-    template <template <class> class Predicate, bool BreakAtPadding = false>
+    template <template <class> class Predicate, bool BreakAtPadding = false, bool BreakAtFixedSize = false>
     static constexpr auto calculate_consecutive_indices() noexcept
     {
         std::array<std::size_t, sizeof...(Parameter)> consecutive_indices{((void)I, SKIP)...};
@@ -120,12 +120,21 @@ class ElementTraits<std::index_sequence<I...>, Parameter...>
             {
                 if constexpr (Predicate<typename detail::ParameterTraits<Parameter>::ValueType>::value)
                 {
-                    if constexpr (BreakAtPadding && detail::ParameterTraits<Parameter>::ALIGNMENT > 1)
+                    if constexpr ((BreakAtPadding && detail::ParameterTraits<Parameter>::ALIGNMENT > 1) ||
+                                  (BreakAtFixedSize &&
+                                   detail::ParameterTraits<Parameter>::TYPE == detail::ParameterType::FIXED_SIZE))
                     {
                         // there may be alignment padding in front of this parameter: start a new run
                         index = I;
                     }
                     consecutive_indices[index] = I;
+                    if constexpr (BreakAtFixedSize &&
+                                  detail::ParameterTraits<Parameter>::TYPE == detail::ParameterType::FIXED_SIZE)
+                    {
+                        // the size of a FixedSize parameter is not stored in the element: for equality it is compared on
+                        // its own so that operands with different fixed sizes do not compare as one byte stream
+                        index = I + 1;
+                    }
                 }
                 else
                 {
@@ -145,7 +154,7 @@ class ElementTraits<std::index_sequence<I...>, Parameter...>
         calculate_consecutive_indices<detail::IsTriviallySwappable>()};
 
     static constexpr auto CONSECUTIVE_EQUALITY_MEMCMPABLE_INDICES{
-        calculate_consecutive_indices<detail::EqualityMemcmpCompatible, true>()};
+        calculate_consecutive_indices<detail::EqualityMemcmpCompatible, true, true>()};
 
     static constexpr auto CONSECUTIVE_LEXICOGRAPHICAL_MEMCMPABLE_INDICES{
         calculate_consecutive_indices<detail::LexicographicalMemcmpCompatible, true>()};
